@@ -274,7 +274,12 @@ def build_items(tier):
                           0, [], None))
     # several accounts: a session logs in again (as the same, as another, as an unknown account) with a listener open
     for psize in (1, 2):
-        for seq in _seqs(2, ["PASV", "EPSV", "USER alice", "USER bob", "USER nobody", "@data", "LIST", "QUIT"], depth):
+        # (thorough: one step deeper over the commands alone)
+        acc_alpha = ["PASV", "EPSV", "USER alice", "USER bob", "USER nobody", "@data", "LIST", "QUIT"]
+        acc_seqs = _seqs(2, acc_alpha, 3)
+        if tier != "quick":
+            acc_seqs += [q for q in _seqs(2, ["PASV", "EPSV", "USER alice", "USER bob", "USER nobody", "QUIT"], 4) if len(q) == 4]
+        for seq in acc_seqs:
             if any(e.startswith("USER") for _, e in seq) and any(e in ("PASV", "EPSV") for _, e in seq):
                 items.append(("seq", {"name": f"seq-accounts-p{psize}", "pool": PORTS[:psize], "n": 2, "events": seq,
                                       "accounts": True}, 0, [], None))
